@@ -376,6 +376,26 @@ def run_result(rng, rec, log, scratch, idx):
     rec.count("results_second_generation")
     if not compare_result(result, loaded2, opts, rec, ctx, tag="result2"):
         return None
+    # third step: ANOTHER result (same scheme, other data) saved over the same folder with allow_overwrite: loading the
+    # same path again must give the new result's datasets, not what was read from that path before
+    import copy
+
+    jc3 = copy.deepcopy(jc)
+    for d in jc3["datasets"]:
+        d["dseed"] = int(d["dseed"]) + 1
+    try:
+        with time_limit(60):
+            result3 = optimize(S.build_scheme(jc3, maximum_number_function_evaluations=3, add_svd=False), verbose=False, raise_exception=True)
+        with warnings.catch_warnings():
+            warnings.simplefilter("ignore")
+            save_result(result3, second / "result.yml", saving_options=opts, allow_overwrite=True)
+            loaded3 = load_result(second / "result.yml")
+    except (Exception, CaseTimeout) as e:  # noqa
+        rec.skip(f"overwrite step not applicable: {type(e).__name__}")
+        return len(jc["datasets"]) >= 2
+    rec.count("results_overwritten_and_reloaded")
+    if not compare_result(result3, loaded3, opts, rec, ctx, tag="result3-after-overwrite"):
+        return None
     return len(jc["datasets"]) >= 2
 
 
